@@ -166,11 +166,12 @@ def _registry_sep(st, a, lst):
         return []
     sim = a["self"]; L = st.read(sim, lst).term
     gname, nname = {"agents": ("agents_group_name2agent", "name2agent"), "markets": ("markets_group_name2market", "name2market")}[lst]
-    g = st.read(sim, gname); k = z3.Const("k_grp", z3.StringSort())
+    g = st.read(sim, gname); k = z3.Const("k_grp", z3.StringSort()); k2_ = z3.Const("k_grp2", z3.StringSort())
     others = [st.read(sim, f).term for f in (("high_frequency_agents", "normal_frequency_agents") if lst == "agents" else ())]
     return [("the registry list, the pools, the group lists and the dictionaries are distinct existing objects",
              z3.And(*[L != o for o in others], z3.Distinct(*others) if len(others) > 1 else z3.BoolVal(True), *[st.is_alloc(o) for o in others + [L]], g.term != st.read(sim, nname).term,
-                    z3.ForAll([k], z3.Implies(z3.Select(st.dict_dom(g), k), z3.And(z3.Select(st.dict_val(g), k) != L, *[z3.Select(st.dict_val(g), k) != o for o in others])))))]
+                    z3.ForAll([k], z3.Implies(z3.Select(st.dict_dom(g), k), z3.And(z3.Select(st.dict_val(g), k) != L, st.is_alloc(z3.Select(st.dict_val(g), k)), *[z3.Select(st.dict_val(g), k) != o for o in others]))),
+                    z3.ForAll([k, k2_], z3.Implies(z3.And(z3.Select(st.dict_dom(g), k), z3.Select(st.dict_dom(g), k2_), k != k2_), z3.Select(st.dict_val(g), k) != z3.Select(st.dict_val(g), k2_)))))]
 
 
 def registry_task(fname, param, lst, id_field, id_dict, name_dict, cls):
@@ -187,6 +188,25 @@ def registry_task(fname, param, lst, id_field, id_dict, name_dict, cls):
                  z3.And(st1.read(sim, lst).term == L, st1.length(L) == st0.length(L) + 1, z3.ForAll([y], st1.mem(L, y) == z3.Or(st0.mem(L, y), y == x.term)),
                         st1.dict_has(st1.read(sim, id_dict), st0.read(x, id_field)), st1.dict_get(st1.read(sim, id_dict), st0.read(x, id_field), check=False).term == x.term,
                         st1.dict_has(st1.read(sim, name_dict), st0.read(x, "name")), st1.dict_get(st1.read(sim, name_dict), st0.read(x, "name"), check=False).term == x.term))]
+    if lst in ("agents", "markets"):
+        grp_field = {"agents": "agents_group_name2agent", "markets": "markets_group_name2market"}[lst]
+        post0 = post
+
+        def post(st0, st1, a, res):      # noqa: F811
+            sim, x = a["self"], a[param]
+            g0, g1 = st0.read(sim, grp_field), st1.read(sim, grp_field)
+            gn = a["group_name"]; k = z3.Const("k_gt", z3.StringSort()); y = z3.Const("y_gt", REF)
+            same = lambda kk: z3.And(z3.Select(st1.dict_dom(g1), kk) == z3.Select(st0.dict_dom(g0), kk),
+                                     z3.Implies(z3.Select(st0.dict_dom(g0), kk), z3.And(z3.Select(st1.dict_val(g1), kk) == z3.Select(st0.dict_val(g0), kk),
+                                                                                           st1.length(z3.Select(st0.dict_val(g0), kk)) == st0.length(z3.Select(st0.dict_val(g0), kk)),
+                                                                                           st1.memset(z3.Select(st0.dict_val(g0), kk)) == st0.memset(z3.Select(st0.dict_val(g0), kk)))))
+            mine = z3.Select(st1.dict_val(g1), gn.term)
+            return post0(st0, st1, a, res) + [
+                ("C18 the group table: only the entry of the given group name changes (no entry under the entity's own name, none without a group name)",
+                 z3.And(g1.term == g0.term, z3.ForAll([k], z3.Implies(z3.Or(gn.none, k != gn.term), same(k))))),
+                ("C18 the group table: the entity joins the list of its group (created if missing)",
+                 z3.Implies(z3.Not(gn.none), z3.And(z3.Select(st1.dict_dom(g1), gn.term),
+                                                    z3.ForAll([y], st1.mem(mine, y) == z3.Or(z3.And(z3.Select(st0.dict_dom(g0), gn.term), st0.mem(z3.Select(st0.dict_val(g0), gn.term), y)), y == x.term)))))]
     if lst == "agents":
         base_post = post
 
